@@ -107,6 +107,9 @@ var c26Templates = [][]c26Item{
 	c26T("id", 2, "asg", "id", 1, "slash", "rune", 1),                // 40 y = x/'('
 	c26T("id", 4, "asg", "str", 2, "uop", "rune", 3),                 // 41 z = "t<TAB>ab(" + '<TAB>'
 	c26T("id", 3, "lp", "str", 2, "comma"),                           // 42 Foo("t<TAB>ab(",
+	c26T("id", 6, "dot"),                                             // 43 sha256.      (an identifier ending in a digit: not the number "256.")
+	c26T("id", 4, "asg", "str", 3),                                   // 44 z = "long(long(...  (5000 bytes)"
+	c26T("lcmt", 3),                                                  // 45 // long(long(...
 }
 
 // template subsets: the quick BFS uses all of them up to 3 lines
@@ -154,7 +157,9 @@ type c26Rec struct {
 // rendering
 
 var (
-	c26Ids    = []string{"", "x", "y", "Foo", "z", "L"}
+	c26Ids    = []string{"", "x", "y", "Foo", "z", "L", "sha256"}
+	// longer than the 4096 bytes of bufio's default buffer
+	c26Long = strings.Repeat("long(", 1000)
 	c26Binops = []string{"==", "%", "!=", "<", "<=", ">", ">=", "&&", "||", "<<", ">>", "&^", "|"}
 	c26Uops   = []string{"+", "-", "*", "&", "^"}
 	c26Asgs   = []string{"=", ":=", "+=", "-=", "*=", "|=", "<<=", "&^=", "%="}
@@ -171,7 +176,7 @@ func c26ItemText(it c26Item, rot int, pos int, line []c26Item) string {
 	case "int":
 		return fmt.Sprint(it.V + 1)
 	case "str":
-		return []string{`"s"`, `"a(\"[{"`, "\"t\tab(\""}[it.V] // (2: a raw tab character inside the literal)
+		return []string{`"s"`, `"a(\"[{"`, "\"t\tab(\"", `"` + c26Long + `"`}[it.V] // (2: a raw tab character inside the literal; 3: a line longer than bufio's buffer)
 	case "rune":
 		return []string{`'a'`, `'('`, `'"'`, "'\t'"}[it.V] // (3: a raw tab character)
 	case "raw1":
@@ -183,7 +188,7 @@ func c26ItemText(it c26Item, rot int, pos int, line []c26Item) string {
 	case "rawclose":
 		return "end)`"
 	case "lcmt":
-		return []string{"// c", `// c "q ( /*`, "//c"}[it.V]
+		return []string{"// c", `// c "q ( /*`, "//c", "// " + c26Long}[it.V]
 	case "cmt1":
 		return []string{"/* c */", `/* c ( " */`}[it.V]
 	case "cmtopen":
